@@ -157,7 +157,7 @@ def check_cli(case):
 
 
 def unit_case_strategy():
-    return gen_unit.aligner_case(min_peaks=1, max_peaks=8)
+    return gen_unit.mixed_case(min_peaks=1, max_peaks=8)
 
 
 def pipeline_strategy():
